@@ -17,6 +17,6 @@ for e in w:
         d['findings'].append(e); n+=1; print('+',e['status'],e['call_site'][-50:],'|',e['signature'][:70],'|',e.get('commit'))
     else:
         t=d['findings'][hit]
-        if 'pending' in c or (t['status']!=e['status'] and e['status']=='fixed') or (t['status']==e['status'] and t!=e and 'pending' not in (e.get('commit') or '') and t.get('commit')==e.get('commit')):
+        if ("pending" in c and t["status"]=="known" and t.get("minimal_case")==e.get("minimal_case")) or (t["status"]==e["status"] and t!=e):
             d['findings'][hit]=e; n+=1; print('~',e['status'],e['call_site'][-50:],'|',e['signature'][:70],'|',e.get('commit'))
 json.dump(d,open('/verif/known_findings.json','w'),indent=1); print('changed',n)
